@@ -93,12 +93,42 @@ def target_b_scaling():
     return (f"{kk.LSQ}:_generate_b_vector[Z-scaling]", kk.LSQ, "_generate_b_vector", run)
 
 
+def target_exact_classification():
+    """_update_circuit (both implementations, Z and Y): what a fitted variable means is decided by exact tests (`== 0.0`) only.
+    A tolerance (isclose) is absolute, so it would drop a parallel resistance of 1e8 ohm but keep the same resistance expressed
+    in other units: the rescaling of the fitted parameters under Z -> c Z would fail."""
+    from pyvc.overload import Vec
+
+    def run(sess: Session):
+        for impl, module in (("lstsq", kk.LSQ), ("inv", kk.INV)):
+            for admittance in (False, True):
+                ctx = L.fresh_ctx([z3.Real("tau1") > 0, z3.Real("tau2") > 0])
+                taus = [sym("tau1"), sym("tau2")]
+                ns = kk.namespace(kk.Solver([]), taus)
+                O.load(module, ["_update_circuit"], ns)
+                O.load(kk.UTIL, ["_generate_circuit"], ns)
+                circuit = ns["_generate_circuit"](taus, True, True, admittance)
+                xs = [sym(f"x{i}") for i in range(5)]
+                ctx.P.hyps += [z3.Real(f"x{i}") != 0 for i in range(5)]
+                try:
+                    if impl == "lstsq":
+                        ns["_update_circuit"](circuit, Vec(xs), True, True, admittance)
+                    else:
+                        ns["_update_circuit"](circuit, Vec(xs), True, admittance)
+                except TypeError:
+                    sess.unsupported(f"_update_circuit[{impl}] has a different signature than the contract expects")
+                    continue
+                kk.check_exact(sess, ns, where=f" [{impl}, {'Y' if admittance else 'Z'}]")
+    return (f"{kk.LSQ}:_update_circuit[exact classification]", kk.LSQ, "_update_circuit", run)
+
+
 def targets():
     ts = [target_residual_scaling(), target_b_scaling()]
     for impl, test, adm in itertools.product(("lstsq", "inv"), ("complex", "real", "imaginary"), (False, True)):
         if impl == "inv" and test == "complex":
             continue
         ts.append(target_matrix_scaling(impl, test, adm))
+    ts.append(target_exact_classification())
     # shared with C08: the reported pseudo chi-squared of the producers uses the weight computed from the impedance
     # representation, whatever representation was fitted -- without it the statistic is not invariant under scaling in Y
     from . import dataflow as DF
